@@ -264,3 +264,260 @@ convert_scalar_truncated!(c13_convert_truncated_u32_len2, ValueKind::U32, 2);
 convert_scalar_truncated!(c13_convert_truncated_u64_len4, ValueKind::U64, 4);
 // obligation: C13.convert_truncated_uuid_len9 | harness: c13_convert_truncated_uuid_len9 | kind: bounded | bound: Uuid value, input length 9 | tier: thorough
 convert_scalar_truncated!(c13_convert_truncated_uuid_len9, ValueKind::Uuid, 9);
+
+// ------------------------------------------------------------------------------------------------------------
+// Container arms: current-epoch (terminated) containers are re-encoded as legacy (counted) ones. The SHAPE of every input
+// is concrete (kind bytes, element counts, one-byte varints), element payloads are symbolic. Expected outputs are written
+// from the two wire formats, independently of the code:
+//   Vec2    = [43] ([1] elem)* [0]                  Vec1    = [17] n elem*
+//   Bytes2  = [44] (len bytes{len})* [0]            Bytes1  = [18] total bytes*
+//   XMap2   = [kind2] ([1] key elem)* [0]           XMap1   = [kind1] n (key elem)*
+//   XSet2   = [kind2] ([1] key)* [0]                XSet1   = [kind1] n key*
+//   Struct2 = [65] ([1] id elem)* [0]               Struct1 = [39] n (id elem)*
+// Checked: result Ok, the whole input consumed, output bytes == expected (hence no 1.20 container kind in the output and
+// the same logical content), and converting the output again gives the output (idempotence).
+fn run_convert(input: &[u8], out: &mut [u8; 32]) -> Option<usize> {
+    let mut src: &[u8] = input;
+    let mut dst = BytesMut::with_capacity(64);
+    let r = match Convert::new(&mut src, &mut dst, Epoch::V1, 0) {
+        Ok(c) => c.convert(),
+        Err(_) => return None,
+    };
+    if r.is_err() || !src.is_empty() {
+        return None;
+    }
+    let n = dst.len();
+    if n > 32 {
+        return None;
+    }
+    let mut i = 0;
+    while i < n {
+        out[i] = dst[i];
+        i += 1;
+    }
+    Some(n)
+}
+
+fn check_convert(input: &[u8], expected: &[u8]) {
+    let mut out = [0u8; 32];
+    let n = match run_convert(input, &mut out) {
+        Some(n) => n,
+        None => {
+            assert!(false);
+            return;
+        }
+    };
+    assert!(n == expected.len());
+    let mut i = 0;
+    while i < n {
+        assert!(out[i] == expected[i]);
+        i += 1;
+    }
+    // idempotence: the legacy encoding converts to itself
+    let mut out2 = [0u8; 32];
+    let n2 = match run_convert(&out[..n], &mut out2) {
+        Some(n2) => n2,
+        None => {
+            assert!(false);
+            return;
+        }
+    };
+    assert!(n2 == n);
+    let mut j = 0;
+    while j < n {
+        assert!(out2[j] == out[j]);
+        j += 1;
+    }
+}
+
+const K_NONE: u8 = ValueKind::None as u8;
+const K_SOME: u8 = ValueKind::Some as u8;
+const K_U8: u8 = ValueKind::U8 as u8;
+
+// obligation: C13.convert_vec2_x0 | harness: c13_convert_vec2_x0 | kind: bounded | bound: empty Vec2 | tier: quick
+#[kani::proof]
+#[kani::unwind(34)]
+fn c13_convert_vec2_x0() {
+    check_convert(&[ValueKind::Vec2 as u8, K_NONE], &[ValueKind::Vec1 as u8, 0]);
+}
+
+// obligation: C13.convert_vec2_x2 | harness: c13_convert_vec2_x2 | kind: bounded | bound: Vec2 of 2 u8 elements (values symbolic) | tier: quick
+#[kani::proof]
+#[kani::unwind(34)]
+fn c13_convert_vec2_x2() {
+    let (x, y): (u8, u8) = (kani::any(), kani::any());
+    check_convert(
+        &[ValueKind::Vec2 as u8, K_SOME, K_U8, x, K_SOME, K_U8, y, K_NONE],
+        &[ValueKind::Vec1 as u8, 2, K_U8, x, K_U8, y],
+    );
+}
+
+// obligation: C13.convert_vec2_nested | harness: c13_convert_vec2_nested | kind: bounded | bound: Vec2 [ Vec2 [u8], Some(u8) ] | tier: quick
+#[kani::proof]
+#[kani::unwind(34)]
+fn c13_convert_vec2_nested() {
+    let (x, y): (u8, u8) = (kani::any(), kani::any());
+    check_convert(
+        &[ValueKind::Vec2 as u8, K_SOME, ValueKind::Vec2 as u8, K_SOME, K_U8, x, K_NONE, K_SOME, K_SOME, K_U8, y, K_NONE],
+        &[ValueKind::Vec1 as u8, 2, ValueKind::Vec1 as u8, 1, K_U8, x, K_SOME, K_U8, y],
+    );
+}
+
+// obligation: C13.convert_bytes2_segments | harness: c13_convert_bytes2_segments | kind: bounded | bound: Bytes2 of two segments (2 + 1 bytes, contents symbolic) | tier: quick
+#[kani::proof]
+#[kani::unwind(34)]
+fn c13_convert_bytes2_segments() {
+    let (a, b, c): (u8, u8, u8) = (kani::any(), kani::any(), kani::any());
+    check_convert(&[ValueKind::Bytes2 as u8, 2, a, b, 1, c, 0], &[ValueKind::Bytes1 as u8, 3, a, b, c]);
+}
+
+// obligation: C13.convert_map2_u8_x2 | harness: c13_convert_map2_u8_x2 | kind: bounded | bound: U8Map2 of 2 entries (keys and u8 values symbolic) | tier: quick
+#[kani::proof]
+#[kani::unwind(34)]
+fn c13_convert_map2_u8_x2() {
+    let (k1, k2, x, y): (u8, u8, u8, u8) = (kani::any(), kani::any(), kani::any(), kani::any());
+    check_convert(
+        &[ValueKind::U8Map2 as u8, K_SOME, k1, K_U8, x, K_SOME, k2, K_U8, y, K_NONE],
+        &[ValueKind::U8Map1 as u8, 2, k1, K_U8, x, k2, K_U8, y],
+    );
+}
+
+// (varint-encoded keys and ids are concrete in these shape harnesses: a symbolic varint makes a buffer length symbolic and
+// CBMC gives no verdict in 1800 s, measured; all key values are covered by the C13.key_convert_* obligations)
+// obligation: C13.convert_map2_u16_key | harness: c13_convert_map2_u16_key | kind: bounded | bound: U16Map2 {1000: None} | tier: quick
+#[kani::proof]
+#[kani::unwind(34)]
+fn c13_convert_map2_u16_key() {
+    // 1000 = 0x03e8 -> varint [255, 0xe8, 0x03]
+    check_convert(
+        &[ValueKind::U16Map2 as u8, K_SOME, 255, 0xe8, 0x03, K_NONE, K_NONE],
+        &[ValueKind::U16Map1 as u8, 1, 255, 0xe8, 0x03, K_NONE],
+    );
+}
+
+// obligation: C13.convert_set2_i8_x2 | harness: c13_convert_set2_i8_x2 | kind: bounded | bound: I8Set2 of 2 keys (symbolic) | tier: quick
+#[kani::proof]
+#[kani::unwind(34)]
+fn c13_convert_set2_i8_x2() {
+    let (k1, k2): (u8, u8) = (kani::any(), kani::any());
+    check_convert(&[ValueKind::I8Set2 as u8, K_SOME, k1, K_SOME, k2, K_NONE], &[ValueKind::I8Set1 as u8, 2, k1, k2]);
+}
+
+// obligation: C13.convert_set2_uuid_x1 | harness: c13_convert_set2_uuid_x1 | kind: bounded | bound: UuidSet2 of 1 key (all 128-bit values) | tier: thorough
+#[kani::proof]
+#[kani::unwind(34)]
+fn c13_convert_set2_uuid_x1() {
+    let u: [u8; 16] = kani::any();
+    let mut input = [0u8; 19];
+    input[0] = ValueKind::UuidSet2 as u8;
+    input[1] = K_SOME;
+    let mut expected = [0u8; 18];
+    expected[0] = ValueKind::UuidSet1 as u8;
+    expected[1] = 1;
+    let mut i = 0;
+    while i < 16 {
+        input[2 + i] = u[i];
+        expected[2 + i] = u[i];
+        i += 1;
+    }
+    input[18] = K_NONE;
+    check_convert(&input, &expected);
+}
+
+// obligation: C13.convert_struct2_x2 | harness: c13_convert_struct2_x2 | kind: bounded | bound: Struct2 of 2 fields (ids 3 and 200, u8 values symbolic) | tier: quick
+#[kani::proof]
+#[kani::unwind(34)]
+fn c13_convert_struct2_x2() {
+    let (x, y): (u8, u8) = (kani::any(), kani::any());
+    let (i1, i2): (u8, u8) = (3, 200);
+    check_convert(
+        &[ValueKind::Struct2 as u8, K_SOME, i1, K_U8, x, K_SOME, i2, K_U8, y, K_NONE],
+        &[ValueKind::Struct1 as u8, 2, i1, K_U8, x, i2, K_U8, y],
+    );
+}
+
+// obligation: C13.convert_enum_of_vec2 | harness: c13_convert_enum_of_vec2 | kind: bounded | bound: Enum(id 9, Vec2 [u8]) | tier: quick
+#[kani::proof]
+#[kani::unwind(34)]
+fn c13_convert_enum_of_vec2() {
+    let x: u8 = kani::any();
+    let id: u8 = 9;
+    check_convert(
+        &[ValueKind::Enum as u8, id, ValueKind::Vec2 as u8, K_SOME, K_U8, x, K_NONE],
+        &[ValueKind::Enum as u8, id, ValueKind::Vec1 as u8, 1, K_U8, x],
+    );
+}
+
+// legacy containers pass through unchanged
+// obligation: C13.convert_legacy_unchanged | harness: c13_convert_legacy_unchanged | kind: bounded | bound: Vec1 [u8, Bytes1(2)] and U8Map1 {k: u8} (payloads symbolic) | tier: quick
+#[kani::proof]
+#[kani::unwind(34)]
+fn c13_convert_legacy_unchanged() {
+    let (x, a, b, k, y): (u8, u8, u8, u8, u8) = (kani::any(), kani::any(), kani::any(), kani::any(), kani::any());
+    let v = [ValueKind::Vec1 as u8, 2, K_U8, x, ValueKind::Bytes1 as u8, 2, a, b];
+    check_convert(&v, &v);
+    let m = [ValueKind::U8Map1 as u8, 1, k, K_U8, y];
+    check_convert(&m, &m);
+}
+
+// malformed terminated containers are rejected (never a panic): a marker other than Some/None, or a missing terminator
+// obligation: C13.convert_vec2_malformed | harness: c13_convert_vec2_malformed | kind: bounded | bound: Vec2 with one symbolic marker byte; truncated Vec2 | tier: quick
+#[kani::proof]
+#[kani::unwind(34)]
+fn c13_convert_vec2_malformed() {
+    let m: u8 = kani::any();
+    kani::assume(m > 1);
+    let mut out = [0u8; 32];
+    assert!(run_convert(&[ValueKind::Vec2 as u8, m, K_U8, 7, K_NONE], &mut out).is_none());
+    assert!(run_convert(&[ValueKind::Vec2 as u8, K_SOME, K_U8, 7], &mut out).is_none());
+}
+
+// nesting limit inside the converter: a container step with a u8 leaf converts at outer depth 30 and is rejected with
+// TooDeeplyNested at outer depth 31 - the same boundary as serializer and deserializer (C01.depth_step_*). The depth is
+// concrete per harness: with a symbolic depth CBMC cannot prune the converter's recursion (no verdict in 600 s, measured).
+macro_rules! convert_depth_step {
+    ($name:ident, $depth:expr, $ok:expr, [$($byte:expr),*]) => {
+        #[kani::proof]
+        #[kani::unwind(8)]
+        fn $name() {
+            let data = [$($byte),*];
+            let mut src: &[u8] = &data;
+            let mut dst = BytesMut::with_capacity(64);
+            let r = match Convert::new(&mut src, &mut dst, Epoch::V1, $depth) {
+                Ok(c) => c.convert(),
+                Err(_) => {
+                    assert!(false);
+                    return;
+                }
+            };
+            match r {
+                Ok(()) => {
+                    assert!($ok);
+                }
+                Err(e) => {
+                    assert!(!$ok);
+                    assert!(matches!(e, ValueConversionError::Deserialize(crate::DeserializeError::TooDeeplyNested)));
+                }
+            }
+        }
+    };
+}
+
+// obligation: C13.convert_depth30_some | harness: c13_convert_depth30_some | kind: bounded | bound: outer depth 30 | tier: quick
+convert_depth_step!(c13_convert_depth30_some, 30, true, [K_SOME, K_U8, 9]);
+// obligation: C13.convert_depth31_some | harness: c13_convert_depth31_some | kind: bounded | bound: outer depth 31 | tier: quick
+convert_depth_step!(c13_convert_depth31_some, 31, false, [K_SOME, K_U8, 9]);
+// obligation: C13.convert_depth30_vec2 | harness: c13_convert_depth30_vec2 | kind: bounded | bound: outer depth 30 | tier: quick
+convert_depth_step!(c13_convert_depth30_vec2, 30, true, [ValueKind::Vec2 as u8, K_SOME, K_U8, 9, K_NONE]);
+// obligation: C13.convert_depth31_vec2 | harness: c13_convert_depth31_vec2 | kind: bounded | bound: outer depth 31 | tier: quick
+convert_depth_step!(c13_convert_depth31_vec2, 31, false, [ValueKind::Vec2 as u8, K_SOME, K_U8, 9, K_NONE]);
+// obligation: C13.convert_depth30_enum | harness: c13_convert_depth30_enum | kind: bounded | bound: outer depth 30 | tier: quick
+convert_depth_step!(c13_convert_depth30_enum, 30, true, [ValueKind::Enum as u8, 7, K_U8, 9]);
+// obligation: C13.convert_depth31_enum | harness: c13_convert_depth31_enum | kind: bounded | bound: outer depth 31 | tier: quick
+convert_depth_step!(c13_convert_depth31_enum, 31, false, [ValueKind::Enum as u8, 7, K_U8, 9]);
+// obligation: C13.convert_depth31_map2 | harness: c13_convert_depth31_map2 | kind: bounded | bound: outer depth 31 | tier: quick
+convert_depth_step!(c13_convert_depth31_map2, 31, false, [ValueKind::U8Map2 as u8, K_SOME, 3, K_U8, 9, K_NONE]);
+// obligation: C13.convert_depth31_struct2 | harness: c13_convert_depth31_struct2 | kind: bounded | bound: outer depth 31 | tier: quick
+convert_depth_step!(c13_convert_depth31_struct2, 31, false, [ValueKind::Struct2 as u8, K_SOME, 5, K_U8, 9, K_NONE]);
+// obligation: C13.convert_depth31_vec1 | harness: c13_convert_depth31_vec1 | kind: bounded | bound: outer depth 31 | tier: quick
+convert_depth_step!(c13_convert_depth31_vec1, 31, false, [ValueKind::Vec1 as u8, 1, K_U8, 9]);
